@@ -136,10 +136,10 @@ Proof. vm_compute. split; reflexivity. Qed.
 Definition bytes := Forall (fun x : N => x < 256).
 
 Definition range256 : list N := map N.of_nat (seq 0 256).
+(* LeadingZeros8(z) >= r  <->  z has no bit at or above position 8-r; checked for all bytes *)
 Definition lz_table_ok : bool :=
-  forallb (fun x => forallb (fun y => forallb (fun r =>
-     Bool.eqb (r <=? lz8 (N.lxor x y)) (x / 2 ^ (8 - r) =? y / 2 ^ (8 - r)))
-     [1; 2; 3; 4; 5; 6; 7]) range256) range256.
+  forallb (fun z => forallb (fun r =>
+     Bool.eqb (r <=? lz8 z) (z / 2 ^ (8 - r) =? 0)) [1; 2; 3; 4; 5; 6; 7]) range256.
 
 Lemma lz_table : lz_table_ok = true.
 Proof. vm_compute. reflexivity. Qed.
@@ -150,17 +150,31 @@ Proof.
   apply in_map. apply in_seq. lia.
 Qed.
 
+Lemma shiftr_lxor_div x y k : N.lxor x y / 2 ^ k = N.lxor (x / 2 ^ k) (y / 2 ^ k).
+Proof. rewrite <- !N.shiftr_div_pow2. apply N.shiftr_lxor. Qed.
+
+Lemma lxor_lt256 x y : x < 256 -> y < 256 -> N.lxor x y < 256.
+Proof.
+  intros Hx Hy. destruct (N.lt_ge_cases (N.lxor x y) 256) as [|Hge]; [assumption|exfalso].
+  pose proof (shiftr_lxor_div x y 8) as H. change (2 ^ 8) with 256 in H.
+  rewrite (N.div_small x 256 Hx), (N.div_small y 256 Hy) in H. cbn in H.
+  assert (1 <= N.lxor x y / 256) by (apply N.div_le_lower_bound; lia). lia.
+Qed.
+
 Lemma lz8_prefix x y r : x < 256 -> y < 256 -> 1 <= r -> r <= 7 ->
   (r <=? lz8 (N.lxor x y)) = (x / 2 ^ (8 - r) =? y / 2 ^ (8 - r)).
 Proof.
   intros Hx Hy H1 H7. pose proof lz_table as T. unfold lz_table_ok in T.
-  rewrite forallb_forall in T. specialize (T x (in_range256 x Hx)).
-  rewrite forallb_forall in T. specialize (T y (in_range256 y Hy)).
+  rewrite forallb_forall in T. specialize (T _ (in_range256 _ (lxor_lt256 x y Hx Hy))).
   rewrite forallb_forall in T.
   assert (Hin : In r [1; 2; 3; 4; 5; 6; 7]).
   { assert (r = 1 \/ r = 2 \/ r = 3 \/ r = 4 \/ r = 5 \/ r = 6 \/ r = 7) as Hc by lia.
     cbn. intuition. }
-  specialize (T r Hin). apply eqb_prop in T. exact T.
+  specialize (T r Hin). apply eqb_prop in T. rewrite T.
+  rewrite shiftr_lxor_div.
+  destruct (N.eqb_spec (x / 2 ^ (8 - r)) (y / 2 ^ (8 - r))) as [He|Hne].
+  - rewrite He, N.lxor_nilpotent. reflexivity.
+  - apply N.eqb_neq. intros H0. apply N.lxor_eq in H0. contradiction.
 Qed.
 
 Lemma nth_bytes l k : bytes l -> nth k l 0 < 256.
